@@ -33,6 +33,14 @@ type PathSample struct {
 	Asserts   []string `json:"asserts,omitempty"`
 }
 
+// ValidationSample: a completed, assertion-clean path with a model of its path condition and
+// its concrete observations; replayed natively to validate the encoder against the real build.
+type ValidationSample struct {
+	Decisions []int
+	Model     map[string]interface{}
+	Obs       map[string]string // label -> concrete value (only fully concrete string/bool/int observations)
+}
+
 type pathObs struct {
 	pc  []*Term
 	obs map[string][]value
@@ -58,6 +66,7 @@ type HarnessResult struct {
 	UnknownFeas  int
 	Vacuous      []string
 	CrossChecks  int
+	Validation   []ValidationSample
 	pathObs      []pathObs
 	mu           sync.Mutex
 }
@@ -185,6 +194,18 @@ func (res *HarnessResult) record(pr PathResult, opts HarnessOpts) {
 	}
 	if len(res.Samples) < 6 || (pr.Outcome != "ok" && len(res.Samples) < 12) {
 		res.Samples = append(res.Samples, sampleOf(pr))
+	}
+	if pr.Model != nil && pr.Outcome == "ok" && len(r.Viol) == 0 && len(res.Validation) < 12 {
+		vs := ValidationSample{Decisions: pr.Decisions, Model: pr.Model, Obs: map[string]string{}}
+		for _, o := range r.ObsList {
+			switch x := o.Val.(type) {
+			case string:
+				vs.Obs[o.Label] = x
+			case bool, int:
+				vs.Obs[o.Label] = fmt.Sprint(x)
+			}
+		}
+		res.Validation = append(res.Validation, vs)
 	}
 	if len(opts.CrossPath) > 0 && (pr.Outcome == "ok" || pr.Outcome == "exit") {
 		po := pathObs{pc: append([]*Term(nil), r.pc...), obs: map[string][]value{}, dec: pr.Decisions}
